@@ -25,7 +25,7 @@ CHECKS["C04"] = ("exploration",
  "DESIGN.md §4 C04")
 CHECKS["C10"] = ("exploration",
  "bounded-exhaustive operand-pair enumeration against math/big",
- "All ordered pairs of a ~1200-value boundary operand set (powers of two and neighbours to 2^130, int64/uint32/sqrt(2^63) boundaries, powers of ten, long decimal integers) are run through + - * / % and the six comparisons in all nine pairs of exact Go representations (int, *big.Int, json.Number) and compared with math/big; unary neg/abs/length/tostring/tojson/fromjson/tonumber likewise; the operands again as literals in query text; ~1300 number-literal shapes are passed through ten untouched-value forms, Marshal, tojson/tostring and the command and must print verbatim; float64 boundary classes must print as shortest round-trip valid JSON (NaN null, infinities saturated).",
+ "All ordered pairs of a ~1200-value boundary operand set (powers of two and neighbours to 2^130, int64/uint32/sqrt(2^63) boundaries, powers of ten, long decimal integers) are run through + - * / % and the six comparisons, and (a third of the pairs in the quick tier, all in the thorough tier) through add, reduce + and a re-read of the operands afterwards, in all nine pairs of exact Go representations (int, *big.Int, json.Number) and compared with math/big; unary neg/abs/length/tostring/tojson/fromjson/tonumber likewise; the operands again as literals in query text; ~1300 number-literal shapes are passed through ten untouched-value forms, Marshal, tojson/tostring and the command and must print verbatim; float64 boundary classes must print as shortest round-trip valid JSON (NaN null, infinities saturated).",
  "Trusted: math/big, strconv. A non-integral quotient is only checked to be a number.",
  "DESIGN.md §4 C10")
 CHECKS["C02"] = ("model_checking",
@@ -85,7 +85,7 @@ CHECKS["C15"] = ("exploration",
  "DESIGN.md §4 C15")
 CHECKS["C16"] = ("fault_enumeration",
  "exhaustive enumeration of documents of a shape grammar, of every truncation byte, of stream splits and read-chunk patterns",
- "Every JSON document of a shape grammar (depth <= 2, width <= 2, 4 scalar kinds, duplicate-free objects over 3 keys in both key orders, empty containers at every position; thorough adds depth 3 over a representative subset) in 4 white-space styles is streamed: the --stream events must equal the reference tostream of the document in document order, fromstream must rebuild the document, tostream must equal the events of the key-sorted document, --stream -s must collect the same events. EVERY truncation byte of every document <= 60 bytes is enumerated under --stream (the events emitted must be a prefix of the full event list, contain every event whose completing token lies before the cut, and be followed by exactly one error), default and -s modes. Streams of 1..3 documents x 4 separators x 8 read-chunk patterns (1, 7, 512, 4096, 16383, 16384, 16385, all at once): -s . = -n [inputs], in-order exactly-once consumption by input/inputs, input past the end, every split over files and stdin, a malformed document after the valid ones (six kinds). -R/-Rs/-Rn/-Rsn over texts incl. CRLF, NUL, invalid UTF-8 and lines of 4095/4096/5000/70000 bytes x the chunk patterns. --arg/--argjson/--slurpfile/--rawfile/--args/--jsonargs bindings incl. the same name bound twice within and across flag kinds; -f file.",
+ "Every JSON document of a shape grammar (depth <= 2, width <= 2, 4 scalar kinds, duplicate-free objects over 3 keys in both key orders, empty containers at every position; thorough adds depth 3 over a representative subset) in 4 white-space styles is streamed: the --stream events must equal the reference tostream of the document in document order, fromstream must rebuild the document, tostream must equal the events of the key-sorted document, --stream -s must collect the same events. EVERY truncation byte of every document <= 60 bytes is enumerated under --stream (the events emitted must be a prefix of the full event list, contain every event whose completing token lies before the cut, and be followed by exactly one error), default and -s modes. Streams of 1..3 documents x 4 separators x 8 read-chunk patterns (1, 7, 512, 4096, 16383, 16384, 16385, all at once): -s . = -n [inputs], in-order exactly-once consumption by input/inputs, input past the end, every split over files and stdin, a malformed document after the valid ones (six kinds). -R/-Rs/-Rn/-Rsn over texts incl. CRLF, NUL, invalid UTF-8 and lines of 4095/4096/5000/70000 bytes x the chunk patterns. --arg/--argjson/--slurpfile/--rawfile/--args/--jsonargs bindings incl. the same name bound twice within and across flag kinds and every binding under 11 input-mode combinations; -f file.",
  "The in-process driver with a chunked non-seekable reader stands for a pipe; a number cut short is itself a number, so the last event before a cut may carry a prefix of the literal.",
  "DESIGN.md §4 C16")
 CHECKS["C17"] = ("fault_enumeration",
